@@ -79,3 +79,23 @@ Theorem empty_network_csr :
   = {| c_rptr := [0; 0]; c_cols := []; c_vals := []; c_nnz := 0 |}.
 Proof. exact empty_network_csr_lemma. Qed.
 Print Assumptions empty_network_csr.
+
+(* ---- batched (cuSPARSE) arrays: system s keeps slot i of an array with [stride] slots per system at s * stride + i
+   (abundances and derivatives: stride NEQUATIONS, Jacobian values: stride NNZ).  Distinct (system, slot) pairs never share an
+   element, every element lies inside the n * stride elements of the batch ... *)
+From Naunet Require Import Model.Batch Proofs.BatchProofs.
+Theorem batch_blocks_disjoint : forall stride s s' i i', i < stride -> i' < stride ->
+  block_index stride s i = block_index stride s' i' -> s = s' /\ i = i'.
+Proof. exact block_index_injective_lemma. Qed.
+Print Assumptions batch_blocks_disjoint.
+
+Theorem batch_subscripts_in_bounds : forall stride n s i, s < n -> i < stride -> block_index stride s i < n * stride.
+Proof. exact block_index_in_bounds_lemma. Qed.
+Print Assumptions batch_subscripts_in_bounds.
+
+(* ... and a stride smaller than the number of slots (NSPECIES for NEQUATIONS when there is a temperature equation - a seeded change
+   of round 22) makes slot 0 of system 1 the very element that holds slot stride' of system 0 *)
+Theorem batch_short_stride_refuted : forall stride stride', stride' < stride ->
+  block_index stride' 1 0 = block_index stride' 0 stride' /\ stride' < stride.
+Proof. exact wrong_stride_aliases_lemma. Qed.
+Print Assumptions batch_short_stride_refuted.
